@@ -629,15 +629,25 @@ func (d *DefaultServerDispatcher) messagePump() {
 					continue
 				}
 				el := q.Peek()
-				if el == nil {
-					// Should never happen
-					log.Error("dispatcher timeout for client %s triggered, but no pending request found", clientID)
-					continue
-				}
 				bundle, _ := el.(RequestBundle)
-				if _, pending := d.pendingRequestState.GetClientState(clientID).GetPendingRequest(bundle.Call.UniqueId); !pending {
-					// The pending request was concluded by a response in the meantime:
-					// the head of the queue is the next request, which was not sent yet
+				if el != nil {
+					_, ok = d.pendingRequestState.GetClientState(clientID).GetPendingRequest(bundle.Call.UniqueId)
+				}
+				if el == nil || !ok {
+					// The head of the queue (if any) is not the pending request. Either a response concluded the pending
+					// request in the meantime, or the pending request is not in this queue at all: it was taken from
+					// the queue of an earlier connection of this client, which reconnected while it was being dispatched.
+					// Such a request can never be completed: drop it, or nothing is sent to the client any more.
+					d.completionMutex.Lock()
+					orphan := d.pendingRequestState.HasPendingRequest(clientID)
+					if orphan {
+						d.pendingRequestState.ClearClientPendingRequest(clientID)
+					}
+					d.completionMutex.Unlock()
+					if orphan {
+						log.Errorf("dropped timed out request for client %s, which belonged to an earlier connection", clientID)
+						d.signalReadyForDispatch(clientID)
+					}
 					continue
 				}
 				d.CompleteRequest(clientID, bundle.Call.UniqueId)
@@ -773,8 +783,14 @@ func (d *DefaultServerDispatcher) CompleteRequest(clientID string, requestID str
 	d.pendingRequestState.DeletePendingRequest(clientID, requestID)
 	d.completionMutex.Unlock()
 	log.Debugf("completed request %s for %s", callID, clientID)
-	// Signal that next message in queue may be sent. The message pump is the only consumer of this channel and
-	// completes requests itself (timeout, failed write): it must never wait for room in it, or it waits for itself.
+	// Signal that next message in queue may be sent
+	d.signalReadyForDispatch(clientID)
+}
+
+// signalReadyForDispatch tells the message pump that the next request of a client may be sent.
+// The message pump is the only consumer of this channel and completes requests itself (timeout, failed write):
+// it must never wait for room in it, or it waits for itself.
+func (d *DefaultServerDispatcher) signalReadyForDispatch(clientID string) {
 	select {
 	case d.readyForDispatch <- clientID:
 	default:
